@@ -638,6 +638,8 @@ func runC14(cfg Config) {
 	runProtoSessions(cfg, rep, m, rng, cfg.N(250, 6000), cfg.N(250, 6000))
 	c14CLI(cfg, rep, rng)
 	c14IndexUpstreams(cfg, rep, rng)
+	runGCSMissingVsFailed(cfg, rep, m, rng)
+	storeOptsStores(cfg, rep, m, rng)
 	rep.Write(cfg.Out)
 }
 
